@@ -172,6 +172,24 @@ def gen_case(g, cid, hard, rich):
     c.cmds.append("OPEN %x" % flags)
     used = set()
     c.used = used
+    # optional subfragment with namespace / prefix / suffix (fields are added to it below)
+    c.inc = None
+    if rich and r.random() < 0.4:
+        aff_chars = [b"a", b"B", b"_", b"9", b" ", b"#", b'"', b"\\", b"\xe9", b"x", b"$"]
+        def affix(lo):
+            return b"".join(r.choice(aff_chars) for _ in range(r.randint(lo, 3)))
+        ns = affix(1) if r.random() < 0.5 else None
+        px = affix(1) if r.random() < 0.6 else None
+        sx = affix(1) if r.random() < 0.6 else None
+        fn = r.choice([b"sub.format", b"sub frag", b"s#1", b'q"uote', b"back\\slash", b"\xe9t\xe9"])
+        c.cmds.append("INC 0 %s %s %s %s" % (hx(fn), hx(ns), hx(px), hx(sx)))
+        c.inc = (ns, px, sx)
+        c.pure = False
+
+    def aff(base):
+        ns, px, sx = c.inc
+        return (ns + b"." if ns else b"") + (px or b"") + base + (sx or b"")
+    frag_box = [0]
     consts = []   # (name, is_array, len)
     # pool of CONST / CARRAY fields usable as scalars
     for _ in range(r.randint(1, 3)):
@@ -196,7 +214,7 @@ def gen_case(g, cid, hard, rich):
             consts.append((n, True, ln))
 
     def scalar_or(lit):
-        if consts and r.random() < 0.3:
+        if frag_box[0] == 0 and consts and r.random() < 0.3:
             n, arr, ln = r.choice(consts)
             idx = r.randint(0, ln - 1) if arr else r.choice([-1, -1, 0])
             return ("C", n, idx)
@@ -204,6 +222,8 @@ def gen_case(g, cid, hard, rich):
 
     def code():
         k = r.random()
+        if frag_box[0] == 1:
+            return aff(g.name(set(), ctrl=True))
         if k < 0.5 and used:
             return r.choice(sorted(used))
         return g.name(set(), ctrl=True)
@@ -223,14 +243,20 @@ def gen_case(g, cid, hard, rich):
         if rich and parents and r.random() < 0.25 and k != "RAW":
             parent = r.choice(parents)
             c.pure = False
+        frag_box[0] = 1 if (c.inc and parent is None and r.random() < 0.5) else 0
         n = g.name(used) if parent is None else g.name(set())
+        if frag_box[0] == 1:
+            n = aff(n)
+            if n in used:
+                continue
+            used.add(n)
         full = n if parent is None else parent + b"/" + n
         if parent is not None:
             if full in used:
                 continue
             used.add(full)
         P = hx(parent) if parent is not None else "-"
-        pre = "ADD %s 0 %s %s " % (k, P, hx(n))
+        pre = "ADD %s %d %s %s " % (k, frag_box[0], P, hx(n))
         if k == "RAW":
             t = r.choice(list(TYPES))
             spf = scalar_or(("L", r.choice([1, 2, 20, 65535, 4294967295, r.randint(1, 1000)])))
@@ -375,8 +401,8 @@ def gen_case(g, cid, hard, rich):
             vs = [g.string() for _ in range(ln)]
             c.cmds.append(pre + "%d %s" % (ln, " ".join(hx(v) for v in vs)))
             ce = "SARRAY %s %d %s" % (hx(full), ln, " ".join(hx(v) for v in vs))
-        c.entries.append((ce, 0, parent))
-        if parent is None and k not in ():
+        c.entries.append((ce, frag_box[0], parent))
+        if parent is None and frag_box[0] == 0:
             parents.append(n)
     if rich:
         tops = [unhx(e[0].split()[1]) for e in c.entries if e[2] is None]
@@ -424,7 +450,7 @@ def parse_out(out):
             cur["std"] = (int(t[1]), int(t[2]))
         elif l.startswith("TEXT "):
             t = l.split()
-            cur["text"][int(t[1])] = bytes.fromhex(t[2]) if t[2] != "!" else None
+            cur["text"][int(t[1])] = (bytes.fromhex(t[2]) if t[2] != "!" else None) if len(t) > 2 else b""
         elif l.startswith("SNAP "):
             t = l.split()
             snap = {"err": int(t[2]), "lines": [], "errstr": ""}
